@@ -957,6 +957,10 @@ def _work(span):
                 hit("find: not found (end())" if hd[0] == "r=" + first[1] else "find: found")
             if op == "lremovev":
                 hit("remove(value)")
+            if op in ("aappendref", "aresizeref", "aappendsub", "aappendself") and hd[1] != "n=0":
+                hit("aliasing argument (%s) with reallocation: the reference/pointer is followed into the new storage" % op)
+            if op == "linsertself" and len(first) > 1 and hd[0] not in ("r=0", "r=-") and hd[0] != "r=" + str(int(first[1]) // 2):
+                hit("l.insert(it, l) with it at an INNER position")
             if op in ("lswap", "pswap", "aswap"):
                 hit("swap")
             if op in ("lcopy", "lassign", "acopy", "aassign"):
